@@ -59,12 +59,16 @@ func dmqMsg() pcommon.DmqMessage {
 func leiosVotesRequest(n uint64) protocol.Message { return leiosvotes.NewMsgVotesRequestNext(n) }
 
 func fillSamples(v *variant) {
+	smode := v.Mode
+	if smode == 0 {
+		smode = v.SampleMode
+	}
 	S := map[uint8]mk{}
 	v.Samples = S
 	switch v.Pkg {
 	case "handshake":
 		vm := func() protocol.ProtocolVersionMap {
-			return protocol.GetProtocolVersionMap(v.Mode, 764824073, false, false, false)
+			return protocol.GetProtocolVersionMap(smode, 764824073, false, false, false)
 		}
 		S[handshake.MessageTypeProposeVersions] = func() protocol.Message { return handshake.NewMsgProposeVersions(vm()) }
 		S[handshake.MessageTypeAcceptVersion] = func() protocol.Message {
@@ -77,7 +81,7 @@ func fillSamples(v *variant) {
 	case "chainsync":
 		S[chainsync.MessageTypeRequestNext] = func() protocol.Message { return chainsync.NewMsgRequestNext() }
 		S[chainsync.MessageTypeAwaitReply] = func() protocol.Message { return chainsync.NewMsgAwaitReply() }
-		if v.Mode == ntn {
+		if smode == ntn {
 			S[chainsync.MessageTypeRollForward] = func() protocol.Message {
 				m, err := chainsync.NewMsgRollForwardNtN(1, 0, []byte{0x82, 0x01, 0x02}, tip())
 				if err != nil {
